@@ -16,6 +16,7 @@ import (
 	"strconv"
 	"strings"
 	"sync"
+	"sync/atomic"
 	"time"
 )
 
@@ -246,14 +247,15 @@ func cmdRun(args []string) error {
 	return nil
 }
 
-var batchSeq int
+var batchSeq int64
+var statsMu sync.Mutex
 
 // runChild runs one child on a batch.  Returns finished results, ids that
 // were in flight when the child died, and ids that never began.
 func (r *runner) runChild(batch []*Source, workers, budgetMs int, single bool) (done []*Result, inflight []int, notBegun []int, err error) {
-	batchSeq++
-	in := filepath.Join(r.workdir, fmt.Sprintf("batch-%d-%d.in", os.Getpid(), batchSeq))
-	out := filepath.Join(r.workdir, fmt.Sprintf("batch-%d-%d.out", os.Getpid(), batchSeq))
+	seq := atomic.AddInt64(&batchSeq, 1)
+	in := filepath.Join(r.workdir, fmt.Sprintf("batch-%d-%d.in", os.Getpid(), seq))
+	out := filepath.Join(r.workdir, fmt.Sprintf("batch-%d-%d.out", os.Getpid(), seq))
 	if err := writeSources(in, batch); err != nil {
 		return nil, nil, nil, err
 	}
@@ -278,7 +280,9 @@ func (r *runner) runChild(batch []*Source, workers, budgetMs int, single bool) (
 	cmd.Stderr = &stderr
 	cmd.Stdout = io.Discard
 	runErr := cmd.Run()
+	statsMu.Lock()
 	r.stats.Children++
+	statsMu.Unlock()
 	begun := map[int]bool{}
 	finished := map[int]bool{}
 	stageOf := map[int]string{}
@@ -411,7 +415,9 @@ func (r *runner) gcc(tu string, extra ...string) (bool, string) {
 	cmd.Stderr = &se
 	cmd.Env = append(os.Environ(), "LC_ALL=C")
 	err := cmd.Run()
+	statsMu.Lock()
 	r.stats.GccRuns++
+	statsMu.Unlock()
 	return err == nil, se.String()
 }
 
@@ -585,13 +591,25 @@ var digitsRE = regexp.MustCompile(`[0-9]+`)
 func baseIdent(line string) string {
 	m := baseIdentRE.FindString(line)
 	if m == "" {
+		// else the field of the receiver struct it touches; generated
+		// fields carry a one-letter prefix (p_, f_, s_, c_) + a source name
+		if f := implFieldRE.FindStringSubmatch(line); f != nil {
+			if len(f[1]) > 2 && f[1][1] == '_' {
+				return f[1][:2]
+			}
+			return f[1]
+		}
 		return "none"
 	}
 	return digitsRE.ReplaceAllString(m, "N")
 }
 
+var implFieldRE = regexp.MustCompile(`private_(?:impl|data)\.(\w+)`)
+var suggestionRE = regexp.MustCompile(`; did you mean .*$`)
+
 var quotedRE = regexp.MustCompile("['‘’`][^'‘’`]*['‘’`]")
 
 func gccMsgClass(msg string) string {
+	msg = suggestionRE.ReplaceAllString(msg, "")
 	return msgClass(quotedRE.ReplaceAllString(msg, "Q"))
 }
